@@ -10,7 +10,7 @@ Line protocol of the C14 model (sums are exact integers: `M := Int`).
   C14 whole  <req> <parts>   finalize (collect all documents)
   C14 merged <req> <parts>   finalize (mergeFruits (parts.map collectSeg))   (with segment truncation)
   C14 mergedtrim <req> <parts>   top-level composite only: finalize (fold compMergeFruits (parts.map collectSegComposite)) — per-segment eviction and merge-time trim above 2*size
-  C14 keyasc <req> <parts>   top-level terms, _key ascending, min_doc_count ≤ 1, no terms below: `same` when the truncated
+  C14 keyasc <req> <parts>   top-level terms, _key ascending or descending, min_doc_count ≤ 1, no terms below: `same` when the truncated
                              merged segments show the buckets and sum_other_doc_count of evalAggPV, `diff …` otherwise, `n/a` when not applicable
   C14 limit  <n> <req> <parts>   finalizeGuarded n on the merged tree: `ok <res>` | `err <count>`
   C14 defaults <size|_> <segment_size|_> <min_doc_count|_>   size, segment_size, min_doc_count, default bucket limit
@@ -184,11 +184,11 @@ def handle : List String → String
       showRes r (finalize r x)
     | _, _ => "bad-op"
   | ["keyasc", rq, ps] =>
-    -- C14_terms_key_asc_exact_under_truncation: when its hypotheses hold, the truncated merged
+    -- C14_terms_key_asc_exact_under_truncation / C14_terms_key_desc_exact_under_truncation: when the hypotheses hold, the truncated merged
     -- segments show the buckets of the direct computation
     match parseReqStr rq, parseParts ps with
     | some (.terms p sub), some parts =>
-      if p.order == .keyAsc && decide (p.size ≤ p.segSize) && decide (p.minDocCount ≤ 1) && sub.cutFree then
+      if (p.order == .keyAsc || p.order == .keyDesc) && decide (p.size ≤ p.segSize) && decide (p.minDocCount ≤ 1) && sub.cutFree then
         let a : Res Int (.terms p sub) := finalize (.terms p sub) (merged (.terms p sub) parts)
         let b : Res Int (.terms p sub) := evalAggPV Int (.terms p sub) parts.flatten
         if showRes (.terms p sub) (a.1, a.2.1, 0) == showRes (.terms p sub) (b.1, b.2.1, 0) then "same"
